@@ -103,10 +103,11 @@ func allChecks() []*Check {
 		{
 			ID: "C20", Title: "The connection password never reaches the log",
 			Harnesses: []Harness{
-				{Pkg: "client", Func: "VerifC20Password", ValSet: true, Quick: map[string]int{"PL": 2}, Thorough: map[string]int{"PL": 4}, Asserts: []string{"password-not-in-log", "pass-line-masked", "something-was-logged"}},
+				{Pkg: "client", Func: "VerifC20Password", ValSet: true, Quick: map[string]int{"PL": 3}, Thorough: map[string]int{"PL": 5}, Asserts: []string{"password-not-in-log", "pass-line-masked", "something-was-logged"}},
+				{Pkg: "client", Func: "VerifC20Password", ValSet: true, Quick: map[string]int{"PL": 2, "R": 2}, Thorough: map[string]int{"PL": 3, "R": 3}, Asserts: []string{"password-not-in-log", "pass-line-masked"}, Note: "several sessions on one client (welcomed, disconnected, reconnected)"},
 				{Pkg: "client", Func: "VerifC20Password", ValSet: true, Quick: map[string]int{"PL": 1, "LONG": 1}, Thorough: map[string]int{"PL": 2, "LONG": 1}, Asserts: []string{"password-not-in-log"}, Note: "password of 521..524 bytes"},
 			},
-			Bounds:      map[string]string{"quick": "passwords of 1..2 symbolic bytes over a 16-symbol alphabet (3-9 # $ ~ ^ _ = + @ ?) disjoint from the library's own log texts (and the same behind a 520-byte filler); one whole session per path: dial ok / refused, negotiation on/off, tracking on/off, flood control off (Flood=true), the k-th socket write failing (k = none,0..3), two received lines, Close; every format string and every string / error argument of every logger call is inspected", "thorough": "passwords up to 4 symbolic bytes"},
+			Bounds:      map[string]string{"quick": "passwords of 1..3 symbolic bytes over a 16-symbol alphabet (3-9 # $ ~ ^ _ = + @ ?) disjoint from the library's own log texts, plus a space anywhere but first (and 1 symbolic byte behind a 520-byte filler); one whole session per path: dial ok / refused, negotiation on/off, tracking on/off, flood control off (Flood=true), the k-th socket write failing (k = none,0..3), three received lines (a NOTICE, the 001 welcome, a malformed line), Close; the same with 2 sessions in a row on one client (passwords 1..2 bytes); every format string and every string / error argument of every logger call is inspected", "thorough": "passwords up to 5 symbolic bytes; 3 sessions in a row with passwords up to 3 bytes"},
 			Outside:     []string{"passwords that are substrings of texts the library logs anyway (e.g. '*')", "loggers that look at non-string arguments", "error texts produced by the real network stack (the dialler is a stub)"},
 			Stubs:       []string{"proxy dialler stub, in-memory wire, bufio model, coroutine scheduler (goroutines run until they block)"},
 			QuickBudget: 5 * time.Minute, ThorBudget: 30 * time.Minute,
@@ -115,9 +116,10 @@ func allChecks() []*Check {
 			ID: "C19", Title: "Capability negotiation asks only for what both sides support and always ends",
 			Harnesses: []Harness{
 				{Pkg: "client", Func: "VerifC19Negotiation", Asserts: []string{"requests-exactly-wanted-and-advertised", "end-on-empty-intersection", "end-after-nak", "held-iff-acked", "end-after-ack-without-sasl", "not-held-after-minus-ack", "sasl-starts-after-ack-only", "sasl-payload-after-server-asked", "end-after-sasl-outcome", "end-after-later-ack"}},
+				{Pkg: "client", Func: "VerifC19History", Quick: map[string]int{"K": 2}, Thorough: map[string]int{"K": 3}, Asserts: []string{"end-after-every-reply", "held-iff-latest-ack-enabled"}, Note: "arbitrary sequences of later ACK / -cap / NAK replies against a model"},
 				{Pkg: "client", Func: "VerifC19Split", Asserts: []string{"split-every-name-once", "split-names-intact-in-order", "split-line-within-limit"}},
 			},
-			Bounds:      map[string]string{"quick": "universe of 2 symbolic capability names (1..2 bytes) + sasl; every subset wanted / advertised / acknowledged, NAK, later ACK of -cap; SASL none / PLAIN / EXTERNAL with credentials of 0..1 symbolic bytes and outcomes 903/904/908 (real go-sasl clients and an exact base64 model); request splitting with 4 names of lengths 220, 216..224, 1..3, 440", "thorough": "same"},
+			Bounds:      map[string]string{"quick": "universe of 2 symbolic capability names (1..2 bytes) + sasl; every subset wanted / advertised / acknowledged, NAK, later ACK of -cap; SASL none / PLAIN / EXTERNAL with credentials of 0..1 symbolic bytes and outcomes 903/904/908 (real go-sasl clients and an exact base64 model); request splitting with 4 names of lengths 220, 216..224, 1..3, 440; histories: after LS, any 2 later replies, each an ACK naming any subset of the two capabilities plain or with '-', in either order, or a NAK of any subset, against a latest-ACK-wins model", "thorough": "histories of 3 replies"},
 			Outside:     []string{"CAP LS continuation lines and capability values (sasl=PLAIN)", "larger universes, longer credentials", "SASL exchanges with further server challenges"},
 			Stubs:       []string{"encoding/base64 StdEncoding: exact symbolic model", "sort.Strings model", "go-sasl executed from its own SSA"},
 			QuickBudget: 5 * time.Minute, ThorBudget: 30 * time.Minute,
@@ -127,12 +129,13 @@ func allChecks() []*Check {
 			Harnesses: []Harness{
 				{Pkg: "client", Func: "VerifC18Register", Asserts: []string{"registration-line-count", "registration-line"}},
 				{Pkg: "client", Func: "VerifC18Dial", Quick: map[string]int{"HL": 2}, Thorough: map[string]int{"HL": 4}, Asserts: []string{"dialled-address", "register-once-before-connect-returns", "failed-connect-fires-nothing", "registration-sent"}},
+				{Pkg: "client", Func: "VerifC18Entry", Quick: map[string]int{"R": 2}, Thorough: map[string]int{"R": 3}, Asserts: []string{"dialled-address", "registration-line-count", "registration-line"}, Note: "all five Connect* entry points, reconnects"},
 				{Pkg: "client", Func: "VerifC18Ping", Quick: map[string]int{"TL": 3}, Thorough: map[string]int{"TL": 6}, Asserts: []string{"pong-same-token", "ping-token-parsed"}},
 				{Pkg: "client", Func: "VerifC18LongPing", Asserts: []string{"pong-same-token", "one-line-received"}},
 				{Pkg: "client", Func: "VerifC18Keepalive", Asserts: []string{"monitor:ping-goroutine-started", "monitor:no-ping-goroutine", "monitor:one-ping-per-tick"}},
 			},
-			Bounds: map[string]string{"quick": "registration: CAP negotiation on/off, password 0..2 bytes, nick/ident/name 1..2 bytes (all bytes but CR/LF), tracking on/off; dial: host 1..2 ASCII bytes, without port / with :port (0..2 digits) / bracketed IPv6 with port, SSL on/off, dial ok/refused, through a harness proxy dialer; PING tokens 0..3 bytes as trailing or middle parameter, with/without source, and a 4200..4202-byte token through the real recv loop; PingFreq any value in [-5, 2^40]",
-				"thorough": "host up to 4 bytes, tokens up to 6 bytes"},
+			Bounds: map[string]string{"quick": "registration: CAP negotiation on/off, password 0..2 bytes, nick/ident/name 1..2 bytes (all bytes but CR/LF), tracking on/off; dial: host 1..2 ASCII bytes, without port / with :port (0..2 digits) / bracketed IPv6 with port, SSL on/off, dial ok/refused, through a harness proxy dialer; PING tokens 0..3 bytes as trailing or middle parameter, with/without source, and a 4200..4202-byte token through the real recv loop; PingFreq any value in [-5, 2^40]; entry points: 2 connects in a row on one client through any of Connect / ConnectContext / ConnectTo(host) / ConnectTo(host, pass) / ConnectToContext, password 0..1 bytes, negotiation on/off",
+				"thorough": "host up to 4 bytes, tokens up to 6 bytes, 3 connects in a row"},
 			Outside:     []string{"the direct (non-proxy) dial path and real TLS (the dialler and the handshake are stubs)", "bare or port-less bracketed IPv6 literals", "the tick period in real time; the PING payload text (fmt.Sprintf is a stub)", "tokens longer than the bound (lines beyond bufio's buffer are covered by C01's delivery harness)"},
 			Stubs:       []string{"x/net/proxy.FromURL dispatches to the harness dialer registered for scheme vtest", "crypto/tls.Client + Handshake: fails", "time.NewTicker: N queued ticks", "context model", "fmt.Sprintf arbitrary text"},
 			QuickBudget: 5 * time.Minute, ThorBudget: 30 * time.Minute,
@@ -146,7 +149,7 @@ func allChecks() []*Check {
 			},
 			Bounds:      map[string]string{"quick": "one server event {433 before the welcome, 001 same/different nick with/without nick!user@host, own NICK (both parameter forms), 433 after the welcome, NICK of another user} from any state satisfying 'Me().Nick = server's nick'; nicks 1..2 symbolic bytes; tracking on/off; default and custom (uninterpreted) generator; DefaultNewNick for all byte strings of length 1..3", "thorough": "nicks 1..3 bytes"},
 			Outside:     []string{"longer nicks, more than one other tracked user", "non-conformant servers (433 before the welcome for a nick other than the pending one; renaming onto a nick in use)"},
-			Stubs:       []string{"goroutines run to completion", "sync.* ghost models"},
+			Stubs:       []string{"goroutines run to completion", "sync.* ghost models; sync.Pool: Get returns the most recently Put object (recycling is the adversarial legal behaviour)"},
 			Assumptions: []string{"server conformance as stated in the property"},
 			QuickBudget: 5 * time.Minute, ThorBudget: 30 * time.Minute,
 		},
@@ -195,10 +198,12 @@ func allChecks() []*Check {
 			Harnesses: []Harness{
 				{Pkg: "client", Func: "VerifC15Copies", Quick: map[string]int{"A": 2}, Thorough: map[string]int{"A": 3, "A15": 1},
 					Asserts: []string{"equal-on-entry", "private-from-original", "private-from-each-other", "original-unchanged", "each-handler-invoked-once"}},
+				{Pkg: "client", Func: "VerifC15Copies", Quick: map[string]int{"A": 1, "D": 2}, Thorough: map[string]int{"A": 2, "D": 3},
+					Asserts: []string{"equal-on-entry", "private-from-each-other"}, Note: "several events in a row; handlers keep and edit their lines after returning"},
 			},
-			Bounds:      map[string]string{"quick": "lines with 0..2 arguments (0..2 symbolic bytes each), Tags nil / empty / 1 / 2 entries; 0..1 internal, 0..2 foreground, 0..2 background handlers that overwrite every mutable part of their line", "thorough": "0..2 and 15 arguments"},
+			Bounds:      map[string]string{"quick": "lines with 0..2 arguments (0..2 symbolic bytes each), Tags nil / empty / 1 / 2 entries; 0..1 internal, 0..2 foreground, 0..2 background handlers that keep their line and overwrite every mutable part of it on entry and again after returning; one event, and 2 events in a row (0..1 arguments) with storage compared across events", "thorough": "0..3 and 15 arguments; 3 events in a row"},
 			Outside:     []string{"more handlers / arguments than the bound", "true interleavings of the handler bodies: the deterministic run-to-completion schedule suffices because pairwise heap-disjointness of everything the handlers can reach through their argument is exactly what is asserted"},
-			Stubs:       []string{"goroutines run to completion at the spawner's wg.Wait (one legal schedule)", "sync.* ghost models"},
+			Stubs:       []string{"goroutines run to completion at the spawner's wg.Wait (one legal schedule)", "sync.* ghost models; sync.Pool: Get returns the most recently Put object (recycling is the adversarial legal behaviour)"},
 			QuickBudget: 5 * time.Minute, ThorBudget: 30 * time.Minute,
 		},
 		{
@@ -221,10 +226,16 @@ func allChecks() []*Check {
 			Harnesses: []Harness{
 				{Pkg: "client", Func: "VerifC08Commands", Quick: map[string]int{"A": 2, "V": 2}, Thorough: map[string]int{"A": 4, "V": 2},
 					Asserts: []string{"no-crlf-in-line", "own-verb", "wire-is-line-crlf", "one-flush-per-line"}},
+				{Pkg: "client", Func: "VerifC08Wire", Quick: map[string]int{"A": 1, "V": 1}, Thorough: map[string]int{"A": 2, "V": 1},
+					Asserts: []string{"no-crlf-in-line", "own-verb", "wire-ends-with-crlf"}, Note: "connected client, real send goroutine; only the server end's bytes are looked at"},
+				{Pkg: "client", Func: "VerifC08Wire", Quick: map[string]int{"A": 1, "V": 1, "FILL": 500, "FILLSPAN": 12}, Thorough: map[string]int{"A": 1, "V": 1, "FILL": 440, "FILLSPAN": 100},
+					Asserts: []string{"no-crlf-in-line", "own-verb", "wire-ends-with-crlf"}, Note: "every argument preceded by a filler (lines around and beyond 512 bytes)"},
+				{Pkg: "client", Func: "VerifC08Wire", Quick: map[string]int{"A": 1, "V": 0, "FILL": 4092, "FILLSPAN": 4, "NSL": 1}, Thorough: map[string]int{"A": 1, "V": 1, "FILL": 4080, "FILLSPAN": 20, "NSL": 1},
+					Asserts: []string{"no-crlf-in-line", "own-verb", "wire-ends-with-crlf"}, Note: "arguments around bufio's 4096-byte buffer"},
 			},
-			Bounds:      map[string]string{"quick": "all 28 exported command methods; every string argument 0..2 arbitrary bytes (all 256 values; Ctcp verb ASCII), 0..2 variadic elements, SplitLen in {-1,0,12,13,16,450}", "thorough": "same with arguments 0..4 bytes"},
-			Outside:     []string{"arguments longer than the bound (message splitting of long texts is C11)", "bytes >= 0x80 in the CTCP verb"},
-			Stubs:       []string{"bufio.Reader/Writer semantic model over the harness's in-memory net.Conn", "fmt.Sprintf/Sprintln = arbitrary text up to 2 bytes"},
+			Bounds:      map[string]string{"quick": "all 28 exported command methods; every string argument 0..2 arbitrary bytes (all 256 values; Ctcp verb ASCII), 0..2 variadic elements, SplitLen in {-1,0,12,13,16,450}; the same calls on a connected client (real Connect through a stub dialler, real send goroutine and write), looking only at the bytes at the server end: arguments 0..1 bytes, then every argument = a filler of 500..512 bytes + 0..1 arbitrary bytes (SplitLen 0/13/600), and a filler of 4092..4096 bytes (across bufio's buffer)", "thorough": "arguments 0..4 bytes; connected client: 0..2 bytes, fillers 440..540 and 4080..4100"},
+			Outside:     []string{"argument lengths between the small bound and the filler windows, and beyond 4100 bytes", "bytes >= 0x80 in the CTCP verb", "filler bytes are a fixed 'x' (only the tail bytes are symbolic)"},
+			Stubs:       []string{"bufio.Reader/Writer semantic model (fill-flush-continue for writes beyond the buffer) over the harness's in-memory net.Conn", "fmt.Sprintf/Sprintln = arbitrary text up to 2 bytes", "wire-framing predicates (stray CR/LF, CRLF termination, verb at every line start) built as single boolean terms over the transcript"},
 			QuickBudget: 5 * time.Minute, ThorBudget: 40 * time.Minute,
 		},
 		{
@@ -234,8 +245,10 @@ func allChecks() []*Check {
 				{Pkg: "client", Func: "VerifC11SymLen"},
 				{Pkg: "client", Func: "VerifC11Wire", Quick: map[string]int{"EXTRA": 5}, Thorough: map[string]int{"EXTRA": 10}},
 				{Pkg: "client", Func: "VerifC11Default", Quick: map[string]int{"K": 6, "OVER": 2}, Thorough: map[string]int{"K": 12, "OVER": 4}},
+				{Pkg: "client", Func: "VerifC11Long", Quick: map[string]int{"SL": 600, "K": 6, "OVER": 2}, Thorough: map[string]int{"SL": 600, "K": 9, "OVER": 4}, Note: "SplitLen 600: lines longer than 512 bytes, read back from the server end"},
+				{Pkg: "client", Func: "VerifC11Long", Quick: map[string]int{"SL": 0, "TGT": 80, "K": 6, "OVER": 2}, Thorough: map[string]int{"SL": 0, "TGT": 120, "K": 9, "OVER": 4}, Note: "default limit with a long target"},
 			},
-			Bounds:      map[string]string{"quick": "SplitLen 13..14 with texts of 0..SplitLen+8 bytes (all byte values but CR/LF); any SplitLen < 13 on the comparison; wire framing for 6 methods at SplitLen 13, text <= 18; default path at text length 450", "thorough": "SplitLen 13..16, texts up to SplitLen+14; wire text <= 23; default path 450..452 bytes with SplitLen in {-5,0,1,12}"},
+			Bounds:      map[string]string{"quick": "SplitLen 13..14 with texts of 0..SplitLen+8 bytes (all byte values but CR/LF); any SplitLen < 13 on the comparison; wire framing for 6 methods at SplitLen 13, text <= 18; default path at text length 450; connected client with SplitLen 600 (lines beyond 512 bytes) and with the default limit and an 80-byte target, Privmsg/Notice/Ctcp/CtcpReply, text = filler + 6 symbolic bytes around the limit + 0..2 beyond, pieces read back from the server end", "thorough": "SplitLen 13..16, texts up to SplitLen+14; wire text <= 23; default path 450..452 bytes with SplitLen in {-5,0,1,12}; long configurations with 9 symbolic bytes, 0..4 beyond, 120-byte target"},
 			Outside:     []string{"texts longer than the bound (more than ~2-4 loop iterations)", "multi-byte character integrity (as in the property)"},
 			Stubs:       []string{"strings.LastIndex as an ite-chain term (no fork)", "fmt.Sprintf = arbitrary text (Privmsgf)"},
 			QuickBudget: 5 * time.Minute, ThorBudget: 40 * time.Minute,
